@@ -719,6 +719,18 @@ def valetEnviron (servant : Option Bool) (scheme : Str) (q : Request) : Except E
   | .error e => .error e
   | .ok (sch, _, _) => .ok (buildEnviron sch q)
 
+/-! ## the requests of one keep-alive connection (`Valet.serviceReqs`) -/
+
+/-- what `Valet.serviceReqs` keeps per connection between requests: the `environ` of the connection's `Responder`.
+For every parsed request it builds a **new** environment with `buildEnviron` and either creates the Responder with it
+or hands it to `Responder.reset(environ=…)`, which replaces the old one; nothing of the old dict is consulted. -/
+def serveRequest (scheme : Str) (_held : Option (List (Str × EVal))) (q : Request) : Option (List (Str × EVal)) :=
+  some (buildEnviron scheme q)
+
+/-- the environment the connection's Responder holds after the requests `qs` (oldest first) -/
+def serveConnection (scheme : Str) (qs : List Request) : Option (List (Str × EVal)) :=
+  qs.foldl (serveRequest scheme) none
+
 /-! ## `Responder` (WSGI response writer) -/
 
 structure Responder where
